@@ -86,6 +86,36 @@ def systematic_plan(ops, quick):
     return lines
 
 
+def width_plan(ops, quick, seed):
+    """one parameter used at two widths in one program (the compiler keeps one loaded copy per parameter and
+    size): a w-wide opcode and an opcode of half that width on its own narrower arrays both take P1, wide use
+    first (pwide) and narrow use first (pnarrow)"""
+    by = {}
+    for o in ops:
+        n = o["name"]
+        if len(o["dest"]) != 1 or "ACCUMULATOR" in o["flags"] or n.startswith(c02.LOADS) or "SCALAR" in o["flags"]:
+            continue
+        if "FLOAT" in o["flags"]:
+            continue
+        sd = o["dest"][0]; ss = o["src"]
+        if len(ss) == 2 and ss[0] == ss[1] == sd:
+            by.setdefault(sd, []).append(n)
+    lines = []
+    k = 0
+    for w in (2, 4, 8):
+        W, N = sorted(by.get(w, [])), sorted(by.get(w // 2, []))
+        if not W or not N:
+            continue
+        if quick:
+            W = [W[(seed * 7 + i * 5) % len(W)] for i in range(6)]
+        for i, o1 in enumerate(W):
+            o2 = N[(seed + i * 3 + w) % len(N)]
+            for tpl in ("pwide", "pnarrow"):
+                k += 1
+                lines.append("%s %d %s %s %s 1 %d" % (tpl, w, o1, o2, o2, 2000 + k))
+    return lines
+
+
 def run_progs(ctx, lines, paths, label):
     binary = build_harness("h_prog", "hook")
     jobs = []
@@ -170,7 +200,9 @@ def run(ctx):
     plines = prog_plan(ops_all, ctx.rng, 96 if quick else 1600)
     slines = systematic_plan(ops_all, quick)
     ctx.cov["systematic_programs"] = len(slines)
-    plines = slines + plines
+    wlines = width_plan(ops_all, quick, ctx.seed)
+    ctx.cov["two_width_parameter_programs"] = len(wlines)
+    plines = slines + wlines + plines
     ctx.cov["programs"] = len(plines)
     ctx.sample(lines[0]); ctx.sample(plines[0]); ctx.sample(plines[-1])
     ptraces = run_progs(ctx, plines, ["avx", "sse", "mmx", "emu"], "c01prog")
@@ -178,7 +210,8 @@ def run(ctx):
     th.join()
     ctx.cov["exhaustive"] = False
     ctx.cov["rule"] = ("one-opcode programs: every integer opcode x {array, parameter, constant} second operand x "
-                       "x1/x2/x4 x 3 targets; multi-instruction programs: 8 templates x seeded opcode choices x 14 runs "
+                       "x1/x2/x4 x 3 targets; multi-instruction programs: 8 templates x seeded opcode choices + the two "
+                       "two-width parameter templates x 14 runs "
                        "(n, m, misalignment, stride) x 4 paths")
     ctx.assumptions += ["flag subsets other than the defaults are C11's", "float opcodes are C18's",
                         "rows are aligned to the element size"]
